@@ -1,18 +1,359 @@
-//! C10 — placeholder, replaced below.
+//! C10 — `--unique` gives exactly-once under redelivery (with re-encoding), by the same
+//! equality as `=`, independent of the hasher seed.
+
 use super::{Budget, Property, ShrinkCaps};
 use crate::case::*;
 use crate::common::*;
+use crate::gen::*;
 use crate::rng::Rng;
 
 pub struct C10;
 
+/// Pool of pairwise distinct abstract values (distinct under any reasonable equality:
+/// different types, or different numeric value, or different structure). No `-0`, no two
+/// objects equal up to member order.
+fn pool() -> Vec<Val> {
+    let s = |x: &str| Val::Str(x.to_string());
+    vec![
+        Val::Null,
+        Val::Bool(true),
+        Val::Bool(false),
+        Val::Int(0),
+        Val::Int(1),
+        Val::Int(-1),
+        Val::Int(2),
+        Val::Int(10),
+        Val::Int(100),
+        Val::Int(1000),
+        Val::Int(-100_000),
+        Val::Int((1 << 53) - 1),
+        Val::Int(-((1 << 53) - 1)),
+        Val::Dec(15, 1),
+        Val::Dec(25, 1),
+        Val::Dec(-15, 1),
+        Val::Dec(1, 1),
+        Val::Dec(1, 3),
+        Val::Dec(123_456_789, 4),
+        s(""),
+        s("a"),
+        s("A"),
+        s("1"),
+        s("1.0"),
+        s("1.5"),
+        s("null"),
+        s("true"),
+        s("é"),
+        s("e\u{301}"),
+        s("aé😀b"),
+        s("q\"q"),
+        s("b\\s"),
+        s("sl/ash"),
+        s("tab\tx"),
+        s("nl\nx"),
+        s("\u{1}"),
+        s("\u{7f}"),
+        s("\u{2028}"),
+        s("[1]"),
+        s("{}"),
+        Val::Arr(vec![]),
+        Val::Arr(vec![Val::Int(1)]),
+        Val::Arr(vec![Val::Int(1), Val::Int(2)]),
+        Val::Arr(vec![Val::Int(2), Val::Int(1)]),
+        Val::Arr(vec![Val::Arr(vec![])]),
+        Val::Arr(vec![Val::Null]),
+        Val::Arr(vec![s("1")]),
+        Val::Arr(vec![Val::Dec(15, 1), s("/")]),
+        Val::Obj(vec![]),
+        Val::Obj(vec![("a".into(), Val::Int(1))]),
+        Val::Obj(vec![("a".into(), Val::Int(2))]),
+        Val::Obj(vec![("b".into(), Val::Int(1))]),
+        Val::Obj(vec![("a".into(), Val::Arr(vec![Val::Int(1)]))]),
+        Val::Obj(vec![("a".into(), Val::Int(1)), ("b".into(), Val::Int(2))]),
+        Val::Obj(vec![("a".into(), Val::Null)]),
+        Val::Obj(vec![("é".into(), s("/"))]),
+        Val::Obj(vec![("a".into(), Val::Obj(vec![("a".into(), Val::Dec(25, 1))]))]),
+    ]
+}
+
+const ABSENT: i64 = -1;
+
+/// one delivery of the record with identity tuple (g, h) (pool indices or ABSENT)
+fn deliver(rng: &mut Rng, g: i64, h: i64, mode_whole: bool, uid: u32, level: u8) -> Vec<u8> {
+    let p = pool();
+    let mut members: Vec<(String, Val)> = Vec::new();
+    if !mode_whole {
+        // fields that are not selected may differ between deliveries
+        if rng.chance(1, 2) {
+            members.push(("noise".into(), Val::Int(i128::from(rng.below(1000) as u32))));
+        }
+    } else {
+        members.push(("id".into(), Val::Int(i128::from(uid))));
+    }
+    if g != ABSENT {
+        members.push(("g".into(), p[g as usize].clone()));
+    }
+    if h != ABSENT {
+        members.push(("h".into(), p[h as usize].clone()));
+    }
+    spell(&Val::Obj(members), rng, level)
+}
+
 impl Property for C10 {
-    fn id(&self) -> &'static str { "C10" }
-    fn level(&self) -> &'static str { "exploration" }
-    fn rule(&self) -> &'static str { "" }
-    fn assumptions(&self) -> Vec<String> { vec![] }
-    fn shrink_caps(&self) -> ShrinkCaps { ShrinkCaps { drop_pieces: true, simplify_records: false, shrink_raw: true, drop_opts: true } }
-    fn budget(&self, _tier: Tier) -> Budget { Budget { seconds: 5, max_cases: 10 } }
-    fn generate(&self, _rng: &mut Rng, _tier: Tier) -> Case { Case::new("C10", "todo") }
-    fn check(&self, _case: &Case, _ctx: &mut Ctx) -> Option<Violation> { None }
+    fn id(&self) -> &'static str {
+        "C10"
+    }
+    fn level(&self) -> &'static str {
+        "exploration"
+    }
+    fn rule(&self) -> &'static str {
+        "A scenario = a base list of records that are pairwise distinct by construction on the compared part (whole records carrying a unique id, or --select .g [--select .h] with the selected members drawn from a pool of 57 pairwise distinct abstract values or absent) and an at-least-once transport applied by the harness: every record may be redelivered later any number of times, each time in a fresh spelling that denotes the same value (whitespace, escape spelling, numerically identical number spellings for |n| < 2^53 or non-integral decimals; no -0, member order never permuted), while unselected fields may change; several hasher seeds per scenario through hook H1. Oracle: stdout(--unique, faulted stream) = stdout(no --unique, the sub-stream of first deliveries with the same spellings) (exactly-once); the pairs [x, y] built from two deliveries go through --select (= #0 #1): true exactly for harness-known redeliveries (eq-agrees); identical stdout under every hasher seed (seed-free). evaluations = jawk executions; non-trivial = at least one redelivery was injected; distinct = distinct abstract traces."
+    }
+    fn assumptions(&self) -> Vec<String> {
+        vec![
+            "weak fit for this technique: the fault is an at-least-once upstream (record-level redelivery with re-encoding); the harness knows which deliveries are duplicates because it injected them".into(),
+            "numbers are confined to the interoperable range; -0 and member-order permutations are excluded as the property states".into(),
+            "hook H1 (cfg yift_jawk_verif) seeds the hasher of the --unique set; unset it is std's RandomState".into(),
+        ]
+    }
+    fn shrink_caps(&self) -> ShrinkCaps {
+        ShrinkCaps {
+            drop_pieces: true,
+            simplify_records: false,
+            shrink_raw: false,
+            drop_opts: false,
+        }
+    }
+    fn budget(&self, tier: Tier) -> Budget {
+        match tier {
+            Tier::Quick => Budget {
+                seconds: 25,
+                max_cases: 60_000,
+            },
+            Tier::Thorough => Budget {
+                seconds: 600,
+                max_cases: 6_000_000,
+            },
+        }
+    }
+
+    fn generate(&self, rng: &mut Rng, tier: Tier) -> Case {
+        let mode_whole = rng.chance(1, 3);
+        let two = rng.chance(1, 2);
+        let mut case = Case::new("C10", if mode_whole { "whole" } else { "selected" });
+        let npool = pool().len() as i64;
+        let max = if tier == Tier::Thorough { 40 } else { 16 };
+        let n = rng.range(1, max);
+        // identities: tuple table
+        let mut tuples: Vec<(i64, i64, u32)> = Vec::new();
+        let mut order: Vec<usize> = Vec::new(); // delivery order as indices into tuples
+        for _ in 0..n {
+            if !tuples.is_empty() && rng.chance(2, 5) {
+                order.push(rng.below(tuples.len()));
+                continue;
+            }
+            let g = if rng.chance(1, 10) { ABSENT } else { rng.range_i64(0, npool - 1) };
+            let h = if !two || rng.chance(1, 4) { ABSENT } else { rng.range_i64(0, npool - 1) };
+            let uid = tuples.len() as u32;
+            let existing = if mode_whole {
+                None
+            } else {
+                tuples.iter().position(|t| t.0 == g && t.1 == h)
+            };
+            match existing {
+                Some(i) => order.push(i),
+                None => {
+                    tuples.push((g, h, uid));
+                    order.push(tuples.len() - 1);
+                }
+            }
+        }
+        let mut seen = vec![false; tuples.len()];
+        for i in order {
+            let (g, h, uid) = tuples[i];
+            let level = if rng.chance(1, 3) { 2 } else { 1 };
+            let bytes = deliver(rng, g, h, mode_whole, uid, level);
+            let mut p = Piece::rec(bytes, i as u32);
+            if seen[i] {
+                p.tag = "redelivery".into();
+            }
+            seen[i] = true;
+            case.pieces.push(p);
+            case.pieces.push(Piece::gap(gen_gap(rng, b"1", b"1", false)));
+        }
+        if !mode_whole {
+            case.opts.push(vec!["--select".into(), ".g=g".into()]);
+            if two {
+                case.opts.push(vec!["--select".into(), ".h=h".into()]);
+            }
+            if rng.chance(1, 4) {
+                case.opts.push(vec![format!("--output-style={}", rng.pick(&["csv", "text"]))]);
+            }
+        } else if rng.chance(1, 4) {
+            case.opts.push(vec![format!("--style={}", rng.pick(&["consise", "pretty"]))]);
+        }
+        case.hash_seeds = (0..3).map(|_| rng.next_u64() >> 1).collect();
+        case.set("pairs_seed", (rng.next_u64() >> 1) as i64);
+        case.delivery = gen_delivery(rng, case.stream().len());
+        case
+    }
+
+    fn check(&self, case: &Case, ctx: &mut Ctx) -> Option<Violation> {
+        if has_opt(&case.opts, "--unique") || case.pieces.iter().any(|p| p.kind == Kind::Raw || (p.kind == Kind::Rec && p.id.is_none())) {
+            ctx.stats.invalid = true;
+            return None;
+        }
+        let stream = case.stream();
+        // sub-stream of first deliveries (same spellings)
+        let mut seen: Vec<u32> = Vec::new();
+        let mut firsts: Vec<u8> = Vec::new();
+        let mut redeliveries = 0u64;
+        for p in &case.pieces {
+            if p.kind == Kind::Rec {
+                let id = p.id.unwrap();
+                if seen.contains(&id) {
+                    redeliveries += 1;
+                    firsts.push(b'\n');
+                    continue;
+                }
+                seen.push(id);
+            }
+            firsts.extend_from_slice(&p.bytes.0);
+        }
+        ctx.stats.fault("record.redelivered", redeliveries);
+        if redeliveries > 0 {
+            ctx.stats.nontrivial = true;
+        }
+        let reference = ctx.exec(ref_spec(case, &firsts));
+        if !reference.outcome.is_ok() {
+            ctx.stats.invalid = true;
+            ctx.jawk_panic = None;
+            return None;
+        }
+        let mut uniq = case.clone();
+        uniq.opts.push(vec!["--unique".into()]);
+        let mut first_out: Option<Vec<u8>> = None;
+        for (si, hs) in case.hash_seeds.iter().enumerate() {
+            let mut spec = case_spec(&uniq, &stream);
+            spec.hash_seed = Some(*hs);
+            let r = ctx.exec(spec);
+            if !r.outcome.is_ok() {
+                if matches!(r.outcome, crate::run::Outcome::Panic(..)) {
+                    return None;
+                }
+                return viol("C10.exactly-once", format!("--unique run failed: {}", r.outcome.describe()));
+            }
+            if let Some(f) = &first_out {
+                if *f != r.obs.stdout {
+                    return viol(
+                        "C10.seed-free",
+                        format!(
+                            "--unique output depends on the hasher seed ({} vs {}): {} vs {}",
+                            case.hash_seeds[0],
+                            hs,
+                            show(f),
+                            show(&r.obs.stdout)
+                        ),
+                    );
+                }
+            } else {
+                first_out = Some(r.obs.stdout.clone());
+            }
+            if r.obs.stdout != reference.obs.stdout {
+                let kept_more = r.obs.stdout.len() > reference.obs.stdout.len();
+                return viol(
+                    "C10.exactly-once",
+                    format!(
+                        "--unique over a stream with {redeliveries} redeliveries {} (hasher seed #{si}); first difference at byte {}: {} vs first deliveries {}",
+                        if kept_more { "kept a later duplicate" } else { "removed something that is not a later duplicate" },
+                        common_prefix(&r.obs.stdout, &reference.obs.stdout),
+                        show(&r.obs.stdout),
+                        show(&reference.obs.stdout)
+                    ),
+                );
+            }
+        }
+        // eq-agrees: `=` on pairs of deliveries must say "equal" exactly for redeliveries
+        let recs: Vec<&Piece> = case.pieces.iter().filter(|p| p.kind == Kind::Rec).collect();
+        if recs.len() >= 2 {
+            let mut rng = Rng::new(case.param("pairs_seed") as u64);
+            let mut pairs: Vec<(usize, usize)> = Vec::new();
+            // all (redelivery, first) pairs plus a sample of others
+            for i in 0..recs.len() {
+                for j in 0..i {
+                    if recs[i].id == recs[j].id {
+                        pairs.push((j, i));
+                        break;
+                    }
+                }
+            }
+            for _ in 0..6 {
+                let a = rng.below(recs.len());
+                let b = rng.below(recs.len());
+                pairs.push((a, b));
+            }
+            pairs.truncate(24);
+            // compare on the compared part: whole record, or the selected members
+            let selected = case.family == "selected";
+            let mut input = Vec::new();
+            for (a, b) in &pairs {
+                input.push(b'[');
+                input.extend_from_slice(&recs[*a].bytes.0);
+                input.push(b',');
+                input.extend_from_slice(&recs[*b].bytes.0);
+                input.extend_from_slice(b"]\n");
+            }
+            let expr = if selected {
+                // rows are compared on (g, h): absent on both sides counts as equal
+                let two = has_opt_value(&case.opts, ".h=h");
+                let part = |k: &str| {
+                    format!("(? (and (nothing? #0.{k}) (nothing? #1.{k})) true (default (= #0.{k} #1.{k}) false))")
+                };
+                if two {
+                    format!("(and {} {})", part("g"), part("h"))
+                } else {
+                    part("g")
+                }
+            } else {
+                "(= #0 #1)".to_string()
+            };
+            let mut eqc = Case::new("C10", "eq");
+            eqc.opts = vec![vec!["--select".into(), format!("{expr}=e")], vec!["--style=consise".into()]];
+            let r = ctx.exec(ref_spec(&eqc, &input));
+            if !r.outcome.is_ok() {
+                ctx.stats.invalid = true;
+                ctx.jawk_panic = None;
+                return None;
+            }
+            let text = String::from_utf8_lossy(&r.obs.stdout).to_string();
+            let rows: Vec<&str> = text.lines().collect();
+            if rows.len() != pairs.len() {
+                return viol("C10.eq-agrees", format!("{} rows for {} pairs: {}", rows.len(), pairs.len(), show(&r.obs.stdout)));
+            }
+            for (row, (a, b)) in rows.iter().zip(pairs.iter()) {
+                let want = recs[*a].id == recs[*b].id;
+                let got = match *row {
+                    "{\"e\":true}" => Some(true),
+                    "{\"e\":false}" => Some(false),
+                    _ => None,
+                };
+                ctx.stats.probe(if want { "eq pair: redelivery" } else { "eq pair: distinct records" });
+                if got != Some(want) {
+                    return viol(
+                        "C10.eq-agrees",
+                        format!(
+                            "`=` says {row} for {} and {} but the harness knows they are {} the same record (while --unique agreed with the harness)",
+                            show(&recs[*a].bytes.0),
+                            show(&recs[*b].bytes.0),
+                            if want { "" } else { "not" }
+                        ),
+                    );
+                }
+            }
+        }
+        None
+    }
+}
+
+fn has_opt_value(opts: &[Vec<String>], v: &str) -> bool {
+    opts.iter().any(|o| o.iter().any(|t| t == v))
 }
